@@ -15,7 +15,9 @@ fn unique_state(r: &mut Rng, uniq: &mut i32) -> Snap {
         *uniq += 1;
         *uniq
     };
-    let d = |r: &mut Rng| if r.chance(1, 5) { 0 } else { 1 + r.below(4) };
+    let deep = r.chance(1, 6);
+    let huge = r.chance(1, 25);
+    let d = |r: &mut Rng| if r.chance(1, 5) && !huge { 0 } else if huge { 60 + r.below(120) } else if deep { 1 + r.below(20) } else { 1 + r.below(4) };
     s.b = (0..d(r)).map(|k| k % 2 == 0).collect();
     s.i = (0..d(r) + 1).map(|_| nx()).collect();
     s.f = (0..d(r)).map(|_| fb(nx() as f32 + 0.25)).collect();
@@ -59,7 +61,7 @@ fn tag(x: &SItem) -> String {
 }
 
 fn id_vector(r: &mut Rng) -> Vec<i32> {
-    let n = r.below(9);
+    let n = if r.chance(1, 30) { 90 + r.below(80) } else if r.chance(1, 6) { 9 + r.below(24) } else { r.below(9) };
     (0..n)
         .map(|_| match r.below(12) {
             0 => *r.pick(&[0, 13, -1, 7, 8, 12, i32::MAX]),
